@@ -129,11 +129,6 @@ func normalizeAttributeValue(name, value string) string {
 		return styles.NormalizeColor(value)
 	}
 
-	// full-width is a flag: only the value "full-width" turns it on ("false" is the other legal value)
-	if name == "full-width" && value != "full-width" {
-		return ""
-	}
-
 	return value
 }
 
